@@ -179,6 +179,10 @@ V("c11a-generator-reseeded-in-place", "C11", {"rule": "C11a", "contains": "re-se
 V("c11a-generator-replaced-through-local", "C11", "silent",
   (CONFIGPY, "        self.rng = np.random.default_rng(self._seed_sequence)\n        random.seed(self._seed_sequence)",
    "        new_generator = np.random.default_rng(self._seed_sequence)\n        self.rng = new_generator\n        random.seed(self._seed_sequence)"))
+V("c07a-quadratic-phase-shear-over-hbar-in-helper", "C07", {"rule": "C07a", "contains": "QuadraticPhase"},
+  (GATESPY, "    def _get_passive_block(self, connector, config):\n        s = self._params[\"s\"]\n\n        return connector.np.array([[1 + s / 2 * 1j]], dtype=config.complex_dtype)\n\n    def _get_active_block(self, connector, config):\n        s = self._params[\"s\"]\n\n        return connector.np.array([[s / 2 * 1j]], dtype=config.complex_dtype)\n", "    def _get_shear(self, config):\n        return self._params[\"s\"] / config.hbar\n\n    def _get_passive_block(self, connector, config):\n        shear = self._get_shear(config)\n\n        return connector.np.array([[1 + shear * 1j]], dtype=config.complex_dtype)\n\n    def _get_active_block(self, connector, config):\n        shear = self._get_shear(config)\n\n        return connector.np.array([[shear * 1j]], dtype=config.complex_dtype)\n"))
+V("c07a-quadratic-phase-shear-helper", "C07", "silent",
+  (GATESPY, "    def _get_passive_block(self, connector, config):\n        s = self._params[\"s\"]\n\n        return connector.np.array([[1 + s / 2 * 1j]], dtype=config.complex_dtype)\n\n    def _get_active_block(self, connector, config):\n        s = self._params[\"s\"]\n\n        return connector.np.array([[s / 2 * 1j]], dtype=config.complex_dtype)\n", "    def _get_shear(self, config):\n        return self._params[\"s\"] / 2\n\n    def _get_passive_block(self, connector, config):\n        shear = self._get_shear(config)\n\n        return connector.np.array([[1 + shear * 1j]], dtype=config.complex_dtype)\n\n    def _get_active_block(self, connector, config):\n        shear = self._get_shear(config)\n\n        return connector.np.array([[shear * 1j]], dtype=config.complex_dtype)\n"))
 # ------------------------------------------------------------------------------------------- C20
 V("c20-sub-add", "C20", {"rule": "C20c", "contains": "Sub"}, (EXPR, "ast.Sub: op.sub", "ast.Sub: op.add"))
 V("c20-lt-le", "C20", {"rule": "C20c", "contains": "Lt"}, (EXPR, "ast.Lt: op.lt", "ast.Lt: op.le"))
